@@ -488,7 +488,9 @@ func (e *kvElection) attemptPriorityTakeover(payloadBytes []byte) error {
 	return nil
 }
 
-func (e *kvElection) becomeFollower() {
+// becomeFollower clears the leadership claim and reports whether the instance was leader,
+// so that callers invoke the demotion callback exactly once per lost term.
+func (e *kvElection) becomeFollower() bool {
 	e.mu.Lock()
 	defer e.mu.Unlock()
 
@@ -501,7 +503,7 @@ func (e *kvElection) becomeFollower() {
 
 	if fromState == StateStopped {
 		// A goroutine winding down after Stop: the election stays STOPPED and starts nothing
-		return
+		return false
 	}
 
 	wasLeader := e.isLeader.Load()
@@ -534,6 +536,7 @@ func (e *kvElection) becomeFollower() {
 			e.watchLoop(e.ctx)
 		}()
 	}
+	return wasLeader
 }
 
 func (e *kvElection) Stop() error {
